@@ -108,6 +108,12 @@ class Run:
                     fired.append(item)
             for item in fired:
                 self.pending_triggers.remove(item)
+                if item.get('inst') == '$dst':
+                    # the victim is the destination of the triggering RPC
+                    if rec['dst'] is None or rec['dst'] == rec['src']:
+                        self.pending_triggers.append(item)
+                        continue
+                    item = dict(item, inst=rec['dst'])
                 sim.after(item['trigger'].get('delay', 0.0), self._apply, item)
 
     def _check_state_triggers(self, inst):
@@ -247,6 +253,8 @@ class Run:
             fired = self._child_exit(item)
         elif kind == 'end_faults':
             pass
+        elif kind.startswith('p_'):
+            fired = self._apply_puppet(item)
         else:
             raise kernel.HarnessError('unknown plan item %r' % (item,))
         if fired:
@@ -262,6 +270,89 @@ class Run:
             f = getattr(obs, 'on_plan_item', None)
             if f:
                 f(item, fired)
+
+    # --- puppet peers ------------------------------------------------------------------------------
+    def _targets(self, item):
+        # real instances a puppet talks to (all live ones unless the item names one)
+        sim = self.sim
+        if item.get('to'):
+            return [item['to']]
+        return sorted(n for n, i in sim.instances.items() if i.alive and i.serving)
+
+    def _puppet_beat(self, puppet, gen):
+        # periodic TICK + STATE publications of a live puppet (a polite peer: it mirrors the receiver's own view)
+        sim = self.sim
+        if not puppet.alive or not puppet.auto_tick or gen != puppet.incarnation or sim.now >= self.t_end:
+            return
+        for dst in self._targets({}):
+            puppet.tick(dst, advance=False)
+            if puppet.mirror:
+                puppet.publish_state(dst)
+        puppet.counter += 1
+        period = puppet.spec.get('period', 5.0)
+        sim.after(period, self._puppet_beat, puppet, gen)
+
+    def _apply_puppet(self, item):
+        sim = self.sim
+        kind = item['kind']
+        puppet = sim.puppets[item['p']]
+        if kind == 'p_up':
+            # (re)start: counter back to 0 (a restart is seen through the tick counter going back)
+            puppet.alive = True
+            puppet.auto_tick = item.get('tick', True)
+            puppet.mirror = item.get('mirror', True)
+            puppet.incarnation += 1
+            puppet.counter = 0
+            puppet.sees_caller = item.get('sees_caller', 3)
+            puppet.strategies_override = dict(item.get('strategies', {}))
+            puppet.set_snapshot(item.get('states', {}))
+            sim.after(item.get('phase', 0.0), self._puppet_beat, puppet, puppet.incarnation)
+            return True
+        if kind == 'p_down':
+            fired = puppet.alive
+            puppet.alive = False
+            return fired
+        if kind == 'p_mute':
+            # stops publishing but still answers RPCs
+            fired = puppet.auto_tick
+            puppet.auto_tick = False
+            return fired
+        if kind == 'p_unmute':
+            if not puppet.alive or puppet.auto_tick:
+                return False
+            puppet.auto_tick = True
+            if item.get('reset_counter'):
+                puppet.counter = 0
+            self._puppet_beat(puppet, puppet.incarnation)
+            return True
+        if not puppet.alive and not item.get('even_dead'):
+            return False
+        targets = self._targets(item)
+        if not targets:
+            return False
+        for dst in targets:
+            if kind == 'p_tick':
+                puppet.tick(dst, counter=item.get('counter'))
+            elif kind == 'p_event':
+                puppet.process_event(dst, item['ns'], item['state'], expected=item.get('expected', True),
+                                     pid=item.get('pid', 0), dt=item.get('dt', 0.0), claim=item.get('claim'))
+            elif kind == 'p_forced':
+                puppet.forced_event(dst, item['ns'], item['target'], item['state'], item.get('shift', 0.0),
+                                    claim=item.get('claim'))
+            elif kind == 'p_removed':
+                puppet.removed_event(dst, item['ns'], claim=item.get('claim'))
+            elif kind == 'p_added':
+                puppet.added_event(dst, item['ns'], item.get('state', 0), claim=item.get('claim'))
+            elif kind == 'p_disability':
+                puppet.disability_event(dst, item['ns'], item.get('disabled', True), claim=item.get('claim'))
+            elif kind == 'p_state':
+                puppet.publish_state(dst, override=item.get('modes'), claim=item.get('claim'))
+            elif kind == 'p_raw':
+                puppet.send(dst, item['comm_type'], item['header'], item['body'],
+                            origin=puppet.claimed_origin(item.get('claim')))
+            else:
+                raise kernel.HarnessError('unknown puppet item %r' % (item,))
+        return True
 
     def _child_exit(self, item):
         sim = self.sim
